@@ -222,6 +222,7 @@ def toy1_sweep(ctx, cname, part, nparts, prefixes):
         # legacy Point objects (constructor asserts on-curve, so only curve points) and scaled Jacobian
         for P in rec.points(d.c):
             judge_point(ctx, d, P[0], P[1], "legacy")
+            judge_point(ctx, d, P[0], P[1], "legacy-ordered")
             judge_point(ctx, d, P[0], P[1], "jacobi-z")
             if P[0] + d.p < 1 << 12:
                 judge_point(ctx, d, P[0] + d.p, P[1], "legacy")
@@ -373,6 +374,8 @@ def small_subgroup_112r2(ctx, count):
                 judge_string(ctx, d, data)
             judge_point(ctx, d, P[0], P[1], "jacobi")
             judge_point(ctx, d, P[0], P[1], "jacobi-ordered")
+            judge_point(ctx, d, P[0], P[1], "legacy")
+            judge_point(ctx, d, P[0], P[1], "legacy-ordered")
             judge_der(ctx, d, rder.enc_spki(oid, b"\x04" + xb + yb), hint="order-%d%s" % (o, "" if k == 0 else "n"))
             ctx.event("secp112r2:order-%d%s" % (o, "" if k == 0 else "*n"))
     ctx.sample({"kind": "secp112r2-small-subgroup", "orders": sorted(found), "note": "points of order 2, 4, 2n, 4n"})
